@@ -130,8 +130,13 @@ fn exec_case(p: &mut proxy::Proxy, spec: &CaseSpec) -> CaseOut {
     let st = parse_stream(&st);
     let mut runs: Vec<String> = Vec::new();
     for pl in &spec.plans {
-        if let Plan::JoinAll = pl {
-            let (c, _) = p.exec("e2e cycle");
+        if let Plan::JoinAt(offs) = pl {
+            for off in offs {
+                runs.push(format!("join {}", off));
+            }
+        } else if let Plan::JoinAll | Plan::JoinCycles(_) = pl {
+            let ncyc = if let Plan::JoinCycles(k) = pl { *k } else { 1 };
+            let (c, _) = p.exec(&format!("e2e cycle {}", ncyc));
             if let Ok(c) = c.trim().parse::<usize>() {
                 // Raptor / RaptorQ with repair symbols: what the decoder makes of a partially received
                 // block + repair symbols is library behaviour (the contract only says "the k source
